@@ -509,3 +509,95 @@ func sharedCallCtxCase(k *engine.Case) {
 		k.Fail("lanes-not-terminated", "%s: Stop + wait did not return: %v", name, Q.Describe())
 	}
 }
+
+// stopRaceCase: Stop racing submitters. Callers hammer one executor with calls (no deadline on
+// their contexts) until they are refused; Stop arrives at an arbitrary moment. Every call that
+// was not refused was accepted "before Stop" and must complete: at the end no caller may be
+// left waiting, every returned call ran exactly once with its own result, refused calls never
+// ran, and the lanes terminate. Many short trials per case.
+func stopRaceCase(k *engine.Case) {
+	r := k.R
+	old := runtime.GOMAXPROCS([]int{2, 4, 8, 16}[r.Intn(4)])
+	defer runtime.GOMAXPROCS(old)
+	trials := 25
+	callers := 4 + r.Intn(9)
+	k.Nontrivial()
+	for trial := 0; trial < trials; trial++ {
+		var ex executor
+		switch r.Intn(4) {
+		case 0:
+			wg := &sync.WaitGroup{}
+			l := line.NewLine(wg, line.WithName("verif"))
+			l.Run()
+			ex = &lineEx{l, wg}
+		case 1:
+			n := []int{1, 2, 3}[r.Intn(3)]
+			m := mline.NewMultiLine(pipe.WithSlotSize(n))
+			m.Run()
+			ex = &mlineEx{m, n}
+		default:
+			rq := async.NewRunnerQ(async.WithName("verif"))
+			rq.Run()
+			ex = &runnerEx{rq, r.Intn(3)}
+		}
+		if trial == 0 {
+			k.Logf("%d trials: %d callers submit to a fresh executor until refused, Stop at a random moment (first executor: %s)", trials, callers, ex.Name())
+		}
+		d := engine.NewDriver(Q, k)
+		var ranOK, refusedRan int64
+		ops := make([]*engine.Op, callers)
+		for c := range ops {
+			c := c
+			ops[c] = d.Spawn(fmt.Sprintf("caller %d", c), func() any {
+				for n := 0; n < 100000; n++ {
+					want := c*1000000 + n
+					var runs int32
+					v, err := ex.Submit(context.Background(), want, func(context.Context, int) (interface{}, error) {
+						atomic.AddInt32(&runs, 1)
+						return want, nil
+					})
+					if err != nil {
+						if atomic.LoadInt32(&runs) != 0 {
+							atomic.AddInt64(&refusedRan, 1)
+						}
+						return nil // refused: the executor has been stopped
+					}
+					if v != want || atomic.LoadInt32(&runs) != 1 {
+						return fmt.Sprintf("call %d returned %v and ran %d time(s)", want, v, atomic.LoadInt32(&runs))
+					}
+					atomic.AddInt64(&ranOK, 1)
+				}
+				return nil
+			})
+		}
+		for i, spin := 0, r.Intn(400); i < spin; i++ {
+			runtime.Gosched()
+		}
+		ex.Stop()
+		wd := d.Spawn("WaitDone", func() any { ex.WaitDone(); return nil })
+		if !d.Quiesce() {
+			return
+		}
+		k.Evals(1)
+		k.Count("stop_race_trials", 1)
+		k.Count("stop_race_calls_completed", atomic.LoadInt64(&ranOK))
+		for c, o := range ops {
+			if !o.Done() {
+				k.Fail("caller-stuck", "%s, trial %d: Stop raced %d submitting callers; caller %d is still waiting for a call that was accepted (not refused) and will never run: %v", ex.Name(), trial, callers, c, Q.Describe())
+				return
+			}
+			if msg, _ := o.Result().(string); msg != "" {
+				k.Fail("wrong-result", "%s, trial %d: %s", ex.Name(), trial, msg)
+				return
+			}
+		}
+		if n := atomic.LoadInt64(&refusedRan); n > 0 {
+			k.Fail("accepted-after-stop", "%s, trial %d: %d calls that were refused ran nevertheless", ex.Name(), trial, n)
+			return
+		}
+		if !wd.Done() {
+			k.Fail("lanes-not-terminated", "%s, trial %d: the lane goroutines did not terminate after Stop: %v", ex.Name(), trial, Q.Describe())
+			return
+		}
+	}
+}
